@@ -8,11 +8,13 @@ for d in sorted(glob.glob(os.path.join(ROOT, "seeded", "C*"))):
     first = m["needs_to_manifest"].strip().splitlines()
     title = next((l.strip("# ").strip() for l in first if l.strip()), "")[:110]
     cr = m["check_result"]
-    rows.append("| %s | %s | %s | %s | %s |" % (m["id"], m["property"], title.replace("|", "/"), "caught" if cr.get("caught") else "MISSED", ", ".join(s.replace("|", "/") for s in cr.get("signatures", [])[:3])))
+    later = m.get("on_repo", {})
+    verdict = "caught" if cr.get("caught") else ("missed cold, caught after strengthening" if later.get("caught") else ("outside the property's domain (see meta.json)" if m.get("verdict_note") else "MISSED cold"))
+    rows.append("| %s | %s | %s | %s | %s |" % (m["id"], m["property"], title.replace("|", "/"), verdict, ", ".join(s.replace("|", "/") for s in cr.get("signatures", [])[:3])))
 with open(os.path.join(ROOT, "seeded", "SUMMARY.md"), "w") as f:
     f.write("# Seeded changes (written by independent sub-agents from the property text only)\n\n")
     f.write("Each directory holds `patch.diff`, the sub-agent's demonstration `demo.rs` and `meta.json` (what the change needs in order to manifest, how it was confirmed, what the check reported).\n\n")
-    f.write("| id | property | change (first line of the author's notes) | quick check | signatures reported |\n|---|---|---|---|---|\n")
+    f.write("| id | property | change (first line of the author's notes) | quick check (cold = before anything was changed in response) | signatures reported cold |\n|---|---|---|---|---|\n")
     f.write("\n".join(rows) + "\n")
 print(len(rows), "seeded rows")
 # mutants: last result per id
